@@ -133,6 +133,7 @@ func (r *Run) watchdog() {
 	if v, err := strconv.Atoi(os.Getenv("VERIF_STUCK_SECS")); err == nil && v > 0 {
 		limit = time.Duration(v) * time.Second
 	}
+	tick := time.Now()
 	for {
 		time.Sleep(2 * time.Second)
 		r.mu.Lock()
@@ -140,6 +141,12 @@ func (r *Run) watchdog() {
 			r.mu.Unlock()
 			return
 		}
+		// a tick that took much longer than 2 s means this process did not run (the machine was
+		// frozen for a snapshot, or is starved): that time does not count against the implementation
+		if now := time.Now(); now.Sub(tick) > 20*time.Second {
+			r.last = r.last.Add(now.Sub(tick))
+		}
+		tick = time.Now()
 		if time.Since(r.last) < limit {
 			r.mu.Unlock()
 			continue
